@@ -59,7 +59,18 @@ inline void enum_init(int argc, char **argv, const char *target) {
   if (replay) {
     FILE *f = fopen(replay, "r");
     char line[2048];
+    bool first_line = true;
     while (f && fgets(line, sizeof line, f)) {
+      if (first_line) {
+        // the header names the seed and the tier the grid was generated with (some grid points are derived from them)
+        first_line = false;
+        std::string h(line);
+        h = h.substr(0, h.find('#'));
+        size_t p1 = h.find(" seed=");
+        if (p1 != std::string::npos) e.seed = strtoull(h.c_str() + p1 + 6, 0, 10);
+        if (h.find(" tier=thorough") != std::string::npos) e.thorough = true;
+        if (h.find(" tier=quick") != std::string::npos) e.thorough = false;
+      }
       if (!strncmp(line, "case ", 5)) {
         e.replay_key = line + 5;
         while (!e.replay_key.empty() && (e.replay_key[e.replay_key.size() - 1] == '\n' || e.replay_key[e.replay_key.size() - 1] == ' ')) e.replay_key.erase(e.replay_key.size() - 1);
@@ -132,7 +143,7 @@ inline int enum_finish(enum_feat_fn fname, const std::string &extra_json) {
     if (e.replay_out) {
       FILE *f = fopen(e.replay_out, "w");
       if (f) {
-        fprintf(f, "check=%s config=%s  # %s\ncase %s\n", e.prop, e.target, e.fail_msg.c_str(), e.fail_key.c_str());
+        fprintf(f, "check=%s config=%s seed=%llu tier=%s  # %s\ncase %s\n", e.prop, e.target, e.seed, e.thorough ? "thorough" : "quick", e.fail_msg.c_str(), e.fail_key.c_str());
         fclose(f);
       }
     }
